@@ -43,6 +43,8 @@ pub enum CK {
     LamOpt,
     LamNone,
     LamMulti,
+    /// a record whose static keys are not ASCII identifiers
+    RecOddKeys,
     Assign,
     Do,
     List,
@@ -52,7 +54,7 @@ pub enum CK {
 
 pub fn child_kinds() -> Vec<CK> {
     let mut v: Vec<CK> = ALL_OPS.iter().map(|o| CK::Bin(*o)).collect();
-    v.extend([CK::Neg, CK::Not, CK::Fact, CK::Call, CK::Index, CK::Field, CK::Cond, CK::Lam, CK::LamRest, CK::LamOpt, CK::LamNone, CK::LamMulti, CK::Assign, CK::Do, CK::List, CK::Rec, CK::NegLit]);
+    v.extend([CK::Neg, CK::Not, CK::Fact, CK::Call, CK::Index, CK::Field, CK::Cond, CK::Lam, CK::LamRest, CK::LamOpt, CK::LamNone, CK::LamMulti, CK::RecOddKeys, CK::Assign, CK::Do, CK::List, CK::Rec, CK::NegLit]);
     v
 }
 
@@ -93,6 +95,7 @@ pub fn mk_child(ck: &CK) -> H {
         CK::Do => H::Do(vec![assign("t", a())], Box::new(bin(Op::Add, id("t"), b()))),
         CK::List => H::List(vec![a(), b()]),
         CK::Rec => H::Rec(vec![(Key::Static("k".into()), a())]),
+        CK::RecOddKeys => H::Rec(vec![(Key::Static("café".into()), a()), (Key::Static("two words".into()), b()), (Key::Static("x²".into()), a()), (Key::Static("_ü".into()), b())]),
         CK::NegLit => H::Un(UOp::Neg, Box::new(H::Num(F(3.0)))),
     }
 }
@@ -173,6 +176,7 @@ pub fn child_class(ck: &CK) -> String {
         CK::Do => "Do".into(),
         CK::List => "List".into(),
         CK::Rec => "Rec".into(),
+        CK::RecOddKeys => "Rec(non-identifier-keys)".into(),
     }
 }
 
